@@ -48,7 +48,16 @@ def gen_case(D, max_n=8):
         for i in range(n):
             if D.bool(0.3):
                 items[str(i)] = ['errn', D.int(1, 3), 'item-%d' % i]
+    timeout = None
+    never = []
+    if retry and n >= 1 and D.bool(0.3):
+        # the attempt times out while some items never answer; the retry
+        # policy starts the next attempt with those executions still open
+        timeout = D.int(1, 3)
+        never = sorted(set(D.int(0, n - 1) for _ in range(D.int(1, 3))))
+        items = {k: v for k, v in items.items() if int(k) not in never}
     case = {'n': n, 'conc': conc, 'zipped': D.bool(0.3), 'sub': sub,
+            'timeout': timeout, 'never': never,
             'items': items, 'retry': retry,
             'rerun': D.choice([None, None, 'reset', 'noreset']),
             'rerun_items': {},
@@ -91,6 +100,8 @@ def render(case):
     if case.get('retry'):
         lines += ["      retry:", "        count: %d" % case['retry'],
                   "        delay: 0"]
+    if case.get('timeout'):
+        lines += ["      timeout: %d" % case['timeout']]
     lines += ["      publish:", "        res: <% task().result %>",
               "      on-success: after", "    after:",
               "      action: std.noop"]
@@ -126,6 +137,8 @@ def check_case(case, stats=None):
 
     def outcome(tname, idx, attempt, info):
         if tname == 'w':
+            if idx in (case.get('never') or []):
+                return ('never', None)
             oc = items.get(str(idx))
             if oc and oc[0] == 'errn':
                 if attempt < oc[1]:
@@ -301,6 +314,8 @@ def check_case(case, stats=None):
             tg.append('rerun_' + case['rerun'])
             if limit is not None and limit < n:
                 tg.append('rerun_with_concurrency_below_n')
+        if case.get('never'):
+            tg.append('timeout_with_items_that_never_answer')
         if case.get('retry'):
             tg.append('retry_policy')
             if limit is not None and limit < n:
@@ -374,6 +389,16 @@ def _final_checks(case, snap, wid, items, phase):
         return [{'kind': 'with-items-task-missing', 'detail': {}}]
     t = ts[0]
     kids = _kids(case, snap, t['id'])
+    if case.get('never'):
+        # some items never answer: the task may stay open or fail by its
+        # timeout, but it must not be SUCCESS (no result for those items)
+        if t['state'] == 'SUCCESS':
+            return [{'kind': 'task-succeeded-although-items-never-completed',
+                     'detail': {'never': case['never'],
+                                'items': sorted((_index(case, k), k['state'],
+                                                 bool(k.get('accepted')))
+                                                for k in kids)}}]
+        return []
     if t['state'] not in FINAL:
         return [{'kind': 'with-items-task-not-finished',
                  'detail': {'state': t['state'], 'root': root['state']}}]
